@@ -373,9 +373,10 @@ def check_c08(pid, tier, seed, res, work):
                 return stats, samples
             outs[name] = [l.rstrip('\n') for l in open(o)]
         # what is reported for F: entities whose file is F's path (paths differ by the project root)
-        def for_file(lines, root):
+        def for_file(lines, root, rel=None):
             # the entity's file is the path as walked from the project path AS SPELLED: compare by the real path
-            target = os.path.realpath(os.path.join(root, F[0]))
+            rel = rel or F[0]
+            target = os.path.realpath(os.path.join(root, rel))
             nodes = []
             for l in lines:
                 if not l.startswith('NODE '):
@@ -384,7 +385,7 @@ def check_c08(pid, tier, seed, res, work):
                 fpath = bytes.fromhex(m_.group(1)).decode('utf-8', 'surrogateescape') if m_ else ''
                 if not os.path.isabs(fpath):
                     fpath = os.path.join(work, fpath)
-                if os.path.normpath(fpath) == os.path.normpath(os.path.join(root, F[0])) and os.path.realpath(fpath) == target:
+                if os.path.normpath(fpath) == os.path.normpath(os.path.join(root, rel)) and os.path.realpath(fpath) == target:
                     nodes.append(l.replace(m_.group(0), ' file=FILE '))
             return sorted(nodes)
         # identities contain the path, so compare the projected observables (everything but id)
@@ -402,6 +403,28 @@ def check_c08(pid, tier, seed, res, work):
                                        file=F[0], content=F[1].decode('utf-8', 'replace'), context=[(p, d.decode('utf-8', 'replace')) for p, d in ctx],
                                        alone=len(a), with_context=len(b), only_alone=only_a, only_context=only_b,
                                        how='graph.Initialize on the directory with and without the context files (as uid 65534 for permission faults); entities with File = the target compared'))
+        if ctx_kind == 'same_names':
+            # the same question for every OTHER file of this context: which of several equally named files is the
+            # one that suffers depends on the spelling of the project path, so each of them is the target once
+            for cj, (crel, cdata) in enumerate(ctx):
+                alone_d = '%s/b%d_%d' % (work, i, cj)
+                qrun.write_project(alone_d, [(crel, cdata)])
+                o = '%s/dump_alone_%d_%d.txt' % (work, i, cj)
+                rc, so, se = run([B + '/harness', 'init-dump', alone_d, o], timeout=300, env=dict(ENV, HOME=work))
+                if rc != 0:
+                    res.tie_broken.append('init-dump failed (same_names, alone %s): %s' % (crel, se.decode(errors='replace')[-200:]))
+                    return stats, samples
+                a2 = sorted(strip_id(l) for l in for_file([l.rstrip('\n') for l in open(o)], alone_d, crel))
+                b2 = sorted(strip_id(l) for l in for_file(outs['context'], var, crel))
+                stats['pairs'] += 1
+                stats['same_names_targets'] += 1
+                stats['entities_of_F'] += len(a2)
+                if a2 != b2:
+                    res.violations.append(dict(property='C08', what='what is reported for a file changes with its siblings (context: same_names, target %s)' % crel,
+                                               file=crel, content=cdata.decode('utf-8', 'replace'), context=[(F[0], F[1].decode('utf-8', 'replace'))] + [(p_, d_.decode('utf-8', 'replace')) for p_, d_ in ctx if p_ != crel],
+                                               alone=len(a2), with_context=len(b2), only_alone=[l for l in a2 if l not in set(b2)][:1], only_context=[l for l in b2 if l not in set(a2)][:1],
+                                               how='graph.Initialize on the directory with and without the context files; entities with File = the target compared'))
+                shutil.rmtree(alone_d, ignore_errors=True)
         if i < 2:
             samples.append(dict(context=ctx_kind, target=F[0], entities=len(a)))
         # restore permissions so the scratch tree can be removed
